@@ -225,7 +225,15 @@ class SimFS:
         self._orig = pd.DataFrame.to_csv
 
         def to_csv(df, path_or_buf=None, *a, **k):
-            if path_or_buf is None or not isinstance(path_or_buf, (str, os.PathLike)):
+            handle = None
+            if path_or_buf is not None and not isinstance(path_or_buf, (str, os.PathLike)):
+                # a file object opened by the caller (e.g. a temp file that is renamed afterwards): still a
+                # result write, as long as it has a name on disk
+                nm = getattr(path_or_buf, "name", None)
+                if not isinstance(nm, str):
+                    return fs._orig(df, path_or_buf, *a, **k)
+                handle, path_or_buf = path_or_buf, nm
+            if path_or_buf is None:
                 return fs._orig(df, path_or_buf, *a, **k)
             idx = len(fs.writes)
             path = os.fspath(path_or_buf)
@@ -240,14 +248,19 @@ class SimFS:
                     fs.log.add("FAULT", kind="write_" + kind, at=idx)
                 if kind == "short":
                     text = fs._orig(df, None, *a, **k)
-                    with open(path, "w") as fh:
-                        fh.write(text[: max(0, min(len(text) - 1, f[1]))])
+                    part = text[: max(0, min(len(text) - 1, f[1]))]
+                    if handle is not None:
+                        handle.write(part.encode() if "b" in getattr(handle, "mode", "") else part)
+                        handle.flush()
+                    else:
+                        with open(path, "w") as fh:
+                            fh.write(part)
                     raise SimFault(5, "simulated short write", path)
                 import errno
 
                 code = {"enospc": errno.ENOSPC, "eio": errno.EIO, "eacces": errno.EACCES}[kind]
                 raise SimFault(code, "simulated " + kind, path)
-            return fs._orig(df, path_or_buf, *a, **k)
+            return fs._orig(df, handle if handle is not None else path_or_buf, *a, **k)
 
         pd.DataFrame.to_csv = to_csv
 
